@@ -303,7 +303,7 @@ func runMultisig(run *ev.Run) {
 		cases = append(cases, exhaustiveCases(n)...)
 	}
 	nEx := len(cases)
-	for i := 0; i < ev.Pick(4000, 60000); i++ {
+	for i := 0; i < ev.Pick(4000, 40000); i++ {
 		cases = append(cases, randomCase(rng.New(sMultisig+uint64(i))))
 	}
 	for i, c := range cases {
@@ -335,6 +335,9 @@ func runMultisig(run *ev.Run) {
 				return
 			}
 			m, n := len(c.sigOwner), len(c.keyIdx)
+			if c.shape == "exhaustive" && n >= 5 && p < 4 && i%3 != p-1 {
+				return // the large enumeration takes one of the three slow rounds, and every fast one
+			}
 			pk := make([][]byte, n)
 			for j := range pk {
 				pk[j] = f.pubs[c.keyIdx[j]]
@@ -437,7 +440,7 @@ func runMultisigVM(run *ev.Run, f *msFixture) {
 	for pos, k := range order {
 		rank[k] = pos
 	}
-	n := ev.Pick(1200, 20000)
+	n := ev.Pick(1200, 12000)
 	family(run, "witness", n, func(c *tc, i int) (string, bool) {
 		r := rng.New(sMSVM + uint64(i))
 		mc := randomCase(r)
